@@ -286,6 +286,27 @@ def gen_cases(rng, tier):
         msg = rfc_encode(cls, tsx, attrs)
         q = "|".join(a if a[:2] in ("MI", "MS") else a.split(":")[0] for a in attrs)
         cases.append(["d%d" % i, "c20", "dec", msg.hex(), q, cls, "%024x" % tsx, "|".join(attrs)])
+    # order of checks on ONE parsed message: a check must accept exactly the untampered message whatever was
+    # checked before (wrong key first, fingerprint before/after integrity, repeated checks)
+    for i in range(80 if tier == "quick" else 1500):
+        attrs = _dedupe([_rand_attr(rng) for _ in range(rng.randrange(0, 4))])
+        key = bytes(rng.randrange(256) for _ in range(rng.choice([1, 16, 20, 64]))).hex()
+        wrong = bytes(rng.randrange(256) for _ in range(rng.choice([1, 16, 20]))).hex()
+        tailk = rng.choice([["MI:" + key, "FP"], ["MS:" + key, "FP"], ["MI:" + key, "MS:" + key, "FP"], ["MI:" + key], ["MI:" + key, "MS:" + key]])
+        attrs = [a for a in attrs if a[:2] not in ("MI", "MS", "FP")] + tailk
+        cls = rng.choice(["ok", "req", "ind", "err"])
+        tsx = rng.choice(TSX + [rng.getrandbits(96)])
+        msg = rfc_encode(cls, tsx, attrs)
+        checks = []
+        for a in tailk:
+            checks.append(a)
+            if a != "FP":
+                checks.append(a[:3] + wrong)
+        seq = [rng.choice(checks) for _ in range(rng.randrange(2, 7))]
+        if i % 2 == 0:
+            seq = [c for c in checks if c.endswith(wrong)][:1] + ["FP"] + seq      # the failing check first
+        plain = [a.split(":")[0] for a in attrs if a[:2] not in ("MI", "MS", "FP")]
+        cases.append(["q%d" % i, "c20", "dec", msg.hex(), "|".join(seq + plain[:2] + seq[:2]), "seq", key, "|".join(attrs)])
     # tampering: every single-bit corruption of sample messages must not verify
     key = "00112233445566778899aabbccddeeff"
     samples = [("ok", TSX[2], ["SW:" + b"ezk".hex(), "XM:192.0.2.66:32853", "MI:" + key, "FP"]),
@@ -382,7 +403,23 @@ def oracle(case, impl):
         if case[5] == "fuzz":
             return out
         attrs = [a for a in case[7].split("|") if a]
-        if case[5] == "tamper":
+        if case[5] == "seq":
+            toks = got.split(" ")[1:]
+            qs = [x for x in case[4].split("|") if x]
+            present = set(a.split(":")[0] for a in attrs)
+            if len(toks) != len(qs):
+                return ["malformed observation: %s" % got[:200]]
+            for qx, tk in zip(qs, toks):
+                code, _, arg = qx.partition(":")
+                if code not in ("MI", "MS", "FP"):
+                    continue
+                val = tk.split("=", 1)[1] if "=" in tk else tk
+                want = "NONE" if code not in present else ("verified" if code == "FP" or arg == case[6] else "ERR")
+                if val != want:
+                    out.append("check sequence [%s] on one untampered message: %s gives %s, expected %s (a check must not depend on the checks made before it)" % (
+                        " ".join(x.split(":")[0] + ("(wrong key)" if ":" in x and x.split(":")[1] != case[6] else "") for x in qs), code, val, want))
+                    break
+        elif case[5] == "tamper":
             # a corrupted message must not be reported as verified by every integrity/fingerprint check it carries
             checks = [a.split(":")[0] for a in attrs if a[:2] in ("MI", "MS", "FP")]
             bit = int(case[6])
@@ -484,7 +521,7 @@ def accepts(case, impl, model):
 def nontrivial(case, impl):
     if case[2] == "enc":
         return case[6] + case[3]
-    if case[2] == "dec" and case[5] not in ("fuzz",):
+    if case[2] == "dec" and case[5] not in ("fuzz", "seq"):
         return case[3]
     return case[0]
 
